@@ -2,7 +2,10 @@
 // incorrect access pattern per LCK feature.
 package lck
 
-import "sync"
+import (
+	"maps"
+	"sync"
+)
 
 type Store struct {
 	mu    sync.RWMutex
@@ -58,4 +61,16 @@ func (s *Store) GoodReleaseFirst() int {
 	n := s.n
 	s.mu.RUnlock()
 	return s.Len() + n
+}
+
+// GoodHOFCallback: the callback runs during maps.DeleteFunc, i.e. while the lock is held.
+func (s *Store) GoodHOFCallback(limit int) {
+	s.mu.Lock()
+	defer s.mu.Unlock()
+	maps.DeleteFunc(s.items, func(_ string, v int) bool { return v > limit+s.n })
+}
+
+// BadHOFCallbackUnlocked: the same callback without the lock.
+func (s *Store) BadHOFCallbackUnlocked(limit int) {
+	maps.DeleteFunc(s.items, func(_ string, v int) bool { return v > limit+s.n })
 }
